@@ -126,7 +126,7 @@ PROPS = {
         "extra_targets": ["tests/FlocqAgreement.vo"],
         "harness_timeout": 3000,
         "rule": "model comparison through dds::decode at the native channel layout and all three precisions (F32 compared bit for bit): the 35 pixel formats - formats of <= 16 bits per pixel over every encoded value (quick: every 5th group of 16), wider ones per channel (every 8/10/11/16-bit field run through its values, f32 channels through specials, rounding boundaries of x*255+0.5 and x*65535+0.5 and random words) in 16x1 and 4x4 images; "
-                "the 7 sub-sampled formats at widths 1..10 x heights 1..3 (odd and even) with random and patterned bytes and every byte value; the 3 bi-planar formats at even sizes 2..8 x 2..6; "
+                "8-bit YUV (AYUV): every (luma, V) pair and every (luma, U) pair for a third (thorough: all) of the luma codes; the 7 sub-sampled formats at widths 1..10 x heights 1..3 (odd and even) with random and patterned bytes and every byte value; the 3 bi-planar formats at even sizes 2..8 x 2..6; "
                 "12000 (thorough 120000) hardware f32 operations (+ - * /, int->f32, f32->u8/u16/u32 casts, min/max/clamp, comparisons on specials, subnormals, boundaries, random patterns) against the IEEE model; "
                 "implementation-only oracle: all 65536 half-float codes through R16_FLOAT to U8 and U16 against exact integer arithmetic; distinct = distinct case lines",
         "trusted_base": BASE_TRUST + ["model/Float.v is an executable IEEE-754 model written for this project; it is tied to the hardware arithmetic the implementation runs on by differential execution, and agrees with Flocq's binary32 operations on an in-kernel sample of 3225 operand pairs x 5 operations (coq/tests/FlocqAgreement.v, a test; only that file depends on Flocq's classical axioms)",
